@@ -111,9 +111,13 @@ def check_ray(ctx, path, rg, i, j, answer, cj, boundary=False):
             # generic frames: skip sign decisions within 1e-9 of the azimuth boundaries (einsum rounding decides them);
             # boundary stream (identity frames, exactly representable legs): the decision is exact and is checked
             near_boundary = (not boundary) and min(abs(abs(want["phi"]) - np.pi / 2), 10) < 1e-9
+            # a leg within 1e-6 rad of the local normal in a generic frame: the azimuth (and with it the sign) is decided by
+            # rounding noise of the basis change, only the unsigned quantities are compared there
+            near_pole = (not boundary) and min(want["theta"], np.pi - want["theta"]) < 1e-6
+            near_boundary = near_boundary or near_pole
             if not (0 <= got["polar"] <= np.pi and angle_close(got["polar"], want["theta"]) and got["angle"] == got["polar"]):
                 ctx.violate(f"{which}_angle({k}) = {got['polar']} is not the polar angle {want['theta']} of the leg in the local frame", cj, tags)
-            if not angle_close(got["azimuth"], want["phi"]) and not (abs(abs(want["phi"]) - np.pi) < 1e-7 and abs(abs(got["azimuth"]) - np.pi) < 1e-7):
+            if not near_pole and not angle_close(got["azimuth"], want["phi"]) and not (abs(abs(want["phi"]) - np.pi) < 1e-7 and abs(abs(got["azimuth"]) - np.pi) < 1e-7):
                 ctx.violate(f"{which}_leg_azimuth({k}) = {got['azimuth']} differs from {want['phi']}", cj, tags)
             if not near_boundary and not angle_close(got["signed"], want["signed"]):
                 ctx.violate(f"signed_{which}_angle({k}) = {got['signed']}: the rule (+theta iff azimuth in (-pi/2, pi/2]) gives {want['signed']} "
@@ -130,7 +134,7 @@ def check_ray(ctx, path, rg, i, j, answer, cj, boundary=False):
                     ctx.disagree(f"model has no {which} leg at interface {k}", cj)
                     continue
                 ok = np.all(np.abs(m["cart"] - got["cart"]) <= 16 * np.finfo(float).eps * scale) and abs(m["radius"] - got["radius"]) <= 16 * np.finfo(float).eps * scale
-                ok = ok and angle_close(m["polar"], got["polar"]) and (angle_close(m["azimuth"], got["azimuth"]) or abs(abs(m["azimuth"]) - np.pi) < 1e-7)
+                ok = ok and angle_close(m["polar"], got["polar"]) and (near_pole or angle_close(m["azimuth"], got["azimuth"]) or abs(abs(m["azimuth"]) - np.pi) < 1e-7)
                 if not near_boundary:
                     ok = ok and angle_close(m["signed"], got["signed"])
                 ok = ok and m["conv_err"] == got["conv_err"] and (m["conv"] is None or angle_close(m["conv"], got["conv"]))
@@ -192,6 +196,30 @@ def boundary_paths(rng):
     return out
 
 
+def normal_incidence_paths(rng, count):
+    """random orthonormal frames, legs numerically parallel to the local normal (theta = 0 or pi): the polar angle
+    arccos(z / r) sits at the end of arccos' domain, where a radius that is one ulp short gives NaN"""
+    import arim
+    import arim.geometry as g
+    import arim.ray
+
+    block = arim.Material(6320.0, 3130.0, density=2700.0, state_of_matter="solid")
+    out = []
+    for _ in range(count):
+        n = int(rng.integers(2, 5))
+        frames = np.stack([fixtures.rot3(rng).T for _ in range(n)])
+        pa = rng.normal(size=(n, 3)) * 1e-2
+        sign = rng.choice([-1.0, 1.0], size=n)
+        pb = pa + (sign * rng.uniform(1e-3, 5e-2, size=n))[:, None] * frames[:, 2, :]
+        a, b = g.Points(pa, "A"), g.Points(pb, "B")
+        ia = arim.Interface(a, g.Points(frames.copy(), "OA"), are_normals_on_out_rays_side=bool(rng.integers(0, 2)))
+        ib = arim.Interface(b, g.Points(frames.copy(), "OB"), are_normals_on_inc_rays_side=bool(rng.integers(0, 2)))
+        p = arim.Path((ia, ib), (block,), ("L",), name="N")
+        arim.ray.ray_tracing_for_paths([p])
+        out.append(p)
+    return out
+
+
 def ray_line(path, i, j):
     n = path.numinterfaces
     idx = path.rays.indices[:, i, j]
@@ -221,6 +249,9 @@ def run(ctx):
         jobs.append((path, False))
     for p in boundary_paths(rng):
         jobs.append((p, True))
+    for p in normal_incidence_paths(rng, 12 * ctx.scale):
+        jobs.append((p, False))
+        ctx.count("normal_incidence_random_frames")
     lines, meta = [], []
     for path, boundary in jobs:
         rg = ray.RayGeometry.from_path(path)
